@@ -544,6 +544,14 @@ func doBinaryOp(a constant.Value, tok token.Token, b constant.Value, ctx []*inte
 	switch binaryOpKinds[tok] {
 	case binaryOpNormal:
 		checkConstKinds(a, tok, b, ctx)
+		if tok == token.REM || tok == token.QUO || tok == token.QUO_ASSIGN {
+			switch b.Kind() {
+			case constant.Int, constant.Float, constant.Complex:
+				if constant.Sign(b) == 0 {
+					panic(errors.New("invalid operation: division by zero"))
+				}
+			}
+		}
 		return constant.BinaryOp(a, tok, b)
 	case binaryOpCompare:
 		checkConstKinds(a, tok, b, ctx)
